@@ -169,6 +169,24 @@ access(all) contract Slot {
     access(all) view fun occupied(): Bool { return self.slot != nil }
     init() { self.slot <- nil; self.shelf <- {} }
 }`},
+	{Name: "Inf", Src: `
+access(all) contract Inf {
+    access(all) struct interface I1 { access(all) fun one(): Int }
+    access(all) struct interface I2 {}
+    access(all) struct interface I3 {}
+    access(all) struct interface I4 {}
+    access(all) struct A: I1, I2, I3, I4 { access(all) fun one(): Int { return 1 }; init() {} }
+    access(all) struct B: I4, I3, I1, I2 { access(all) fun one(): Int { return 2 }; init() {} }
+    access(all) struct C: I2, I1, I4 { access(all) fun one(): Int { return 3 }; init() {} }
+    access(all) resource interface R1 {}
+    access(all) resource interface R2 {}
+    access(all) resource interface R3 {}
+    access(all) resource X: R1, R2, R3 { access(all) event ResourceDestroyed(uuid: UInt64 = self.uuid); init() {} }
+    access(all) resource Y: R3, R2, R1 { access(all) event ResourceDestroyed(uuid: UInt64 = self.uuid); init() {} }
+    access(all) fun mkX(): @X { return <- create X() }
+    access(all) fun mkY(): @Y { return <- create Y() }
+    init() {}
+}`},
 	// the same contract, name and declarations, in two accounts: A.09.Twin.S and A.0a.Twin.S are unrelated types
 	{Name: "Twin", Src: `access(all) contract Twin {
     access(all) struct S {
@@ -713,6 +731,34 @@ var scenarios = []scenario{
 			{Kind: "tx", Src: scnTx(other, `        let c <- s.storage.load<@Twin.R>(from: /storage/scnTwinR)
         destroy c`), Fails: "TypeMismatchError"},
 			{Kind: "script", Src: scnScript("import Twin from 0x9\n", "Int", "    let a = getAuthAccount<auth(Storage) &Account>(0x9)\n    return a.storage.copy<Twin.S>(from: /storage/scnTwinS)!.a + a.storage.borrow<&Twin.R>(from: /storage/scnTwinR)!.a"), Expect: []string{}},
+		}
+	}},
+	{"inferred-types", func(r *Rng) []scnStep {
+		flag := r.Intn(2) == 0
+		return []scnStep{
+			// un-annotated literals and conditionals over different composites: the inferred (intersection) types reach logs, storage and results
+			{Kind: "tx", Src: scnTx(impW+"import Inf from 0x9\n", fmt.Sprintf(`        let xs = [Inf.A(), Inf.B()]
+        let ys = [Inf.B(), Inf.C(), Inf.A()]
+        let d = {"a": Inf.A(), "c": Inf.C()}
+        let c = %v ? Inf.A() : Inf.B()
+        let o = [Inf.A(), nil, Inf.C()]
+        log(xs.getType().identifier)
+        log(ys.getType().identifier)
+        log(d.getType().identifier)
+        log(c.one())
+        log(o.getType().identifier)
+        log([xs, [Inf.C()]].getType().identifier)
+        s.storage.load<AnyStruct>(from: /storage/scnInfXs)
+        s.storage.load<AnyStruct>(from: /storage/scnInfD)
+        s.storage.save(xs, to: /storage/scnInfXs)
+        s.storage.save(d, to: /storage/scnInfD)
+        let rs <- [<- Inf.mkX(), <- Inf.mkY()]
+        log(rs.getType().identifier)
+        if let old <- s.storage.load<@AnyResource>(from: /storage/scnInfRs) { destroy old }
+        s.storage.save(<- rs, to: /storage/scnInfRs)`, flag))},
+			{Kind: "script", Src: scnScript("import Inf from 0x9\n", "[AnyStruct]", `    let a = getAuthAccount<auth(Storage) &Account>(0x9)
+    return [a.storage.type(at: /storage/scnInfXs)!.identifier, a.storage.type(at: /storage/scnInfD)!.identifier, a.storage.type(at: /storage/scnInfRs)!.identifier,
+        [Inf.C(), Inf.B()], {1: Inf.A(), 2: Inf.B()}]`)},
 		}
 	}},
 	{"resource-juggling", func(r *Rng) []scnStep {
